@@ -625,11 +625,15 @@ func TestBlocklistHistories(t *testing.T) {
 	n := run.N(1000, 12000)
 	nops := run.N(30, 40)
 	inner := openStore(t)
-	defer inner.Close()
+	defer func() { inner.Close() }()
 	for k := 0; k < n; k++ {
 		c := run.Begin(fmt.Sprintf("hist/%d", k), map[string]interface{}{"ops": nops})
 		if c == nil {
 			continue
+		}
+		if k%400 == 399 { // a fresh store now and then: deleted keys slow leveldb iteration down
+			inner.Close()
+			inner = openStore(t)
 		}
 		runHistory(t, run, c, inner, nops)
 	}
